@@ -13,7 +13,7 @@
 //
 // ops (t=<ms> is the planned offset from the start of the case; the executor never runs an op early):
 //
-//	O set r|w <ms> | setpast r|w | both <ms> | clear r|w | clearboth | write full|short|err | flush full|short|err
+//	O set r|w <ms> | setpast r|w | both <ms> | clear r|w | clearboth | write|writev full|short|err | flush full|short|err
 //	O close | wait                                   (virt)
 //	O conn | req small|big | req slow <ms> | wsup | msg | ping | wait       (http / ws; slow: the handler sleeps <ms>)
 //	Q g=<ms>                                         final observation, issued after every deadline + g
@@ -171,7 +171,7 @@ func genVirt(g *lp.Gen, id int) {
 		g.P("O set w %d t=%d", d, t)
 		upd(t + d)
 		t += g.PickInt(1, 5, 10)
-		g.P("O write short t=%d", t)
+		g.P("O %s short t=%d", g.Pick("write", "write", "writev"), t)
 		if g.Chance(1, 3) {
 			t += g.PickInt(1, 5)
 			g.P("O flush short t=%d", t)
@@ -224,9 +224,10 @@ func genVirt(g *lp.Gen, id int) {
 			g.P("O clearboth t=%d", t)
 			p.r, p.w = -1, -1
 		case 12, 13:
-			g.P("O write full t=%d", t)
+			// Write and Writev are two implementations of the same model step
+			g.P("O %s full t=%d", g.Pick("write", "writev"), t)
 		case 14, 15:
-			g.P("O write short t=%d", t)
+			g.P("O %s short t=%d", g.Pick("write", "writev"), t)
 		case 16, 17:
 			g.P("O flush %s t=%d", g.Pick("full", "full", "short"), t)
 		case 18:
@@ -234,7 +235,7 @@ func genVirt(g *lp.Gen, id int) {
 				g.P("O close t=%d", t)
 				closedPlanned = true
 			} else {
-				g.P("O %s err t=%d", g.Pick("write", "flush"), t)
+				g.P("O %s err t=%d", g.Pick("write", "flush", "writev"), t)
 			}
 		case 19:
 			dd := g.Pick("r", "w")
@@ -805,20 +806,30 @@ func setupVirt(e *env) (func(ws []string), func()) {
 				tr.clear(0, e.us())
 				tr.clear(1, e.us())
 			}
-		case "write":
+		case "write", "writev":
 			was := c.VerifState()
+			// Writev with two or more buffers takes the vectored path (writev(2), its own bookkeeping of the queue and
+			// of the write deadline); with one buffer it is Write
+			wr := func(b []byte) {
+				if ws[1] == "writev" {
+					k := len(b) / 3
+					_, _ = c.Writev([][]byte{b[:k], b[k : 2*k], b[2*k:]})
+				} else {
+					_, _ = c.Write(b)
+				}
+			}
 			switch ws[2] {
 			case "full":
 				v.SetScript([]vsys.Ans{{N: 1 << 30}})
-				_, _ = c.Write(payload)
+				wr(payload)
 			case "short":
 				v.SetScript([]vsys.Ans{{N: 10}})
-				_, _ = c.Write(payload)
+				wr(payload)
 			case "err":
 				if !was.Closed {
 					e.selfK = "io"
 				}
-				_, _ = c.Write(huge) // overflow: closes with an error whatever the queue holds
+				wr(huge) // overflow: closes with an error whatever the queue holds
 			}
 			st := c.VerifState()
 			if !st.Closed && len(st.Items) == 0 {
